@@ -226,6 +226,23 @@ def r11_6(ctx):
            "tendril futf.rs decode")
 
 
+def utf8_boundary_validators(ctx, rule):
+    """UTF8::validate_prefix / validate_suffix: a non-empty slice ends / starts at a code point boundary iff the code point that
+    futf finds at its last / first byte is whole (the classification itself is the table of R11.6); the empty slice is valid"""
+    for fn, at in (("validate_suffix", "0"), ("validate_prefix", "(p1.len() - 1)")):
+        key, pcs = nfq.cells(ctx, AREA, "fmt::UTF8[Format]::" + fn)
+        fe = nfq.feasible(pcs)
+        bad = None
+        for pc in fe:
+            g = pc["guards"]
+            empty = gval(g, "p1.is_empty()")
+            whole = [v for k, v in g.items() if re.fullmatch(r"classify\(p1,%s\) matches Some\(Codepoint\{meaning:Whole\(_\)(,\.\.|,[^}]*)?\}\)(#\d+)?" % re.escape(at), k)]
+            want = "true" if (empty is True or whole == [True]) else "false" if whole == [False] else None
+            if want is None or str(pc["ret"]) != want:
+                bad = "%s answers %s under %s: it is not 'empty, or the code point at %s is whole'" % (fn, pc["ret"], {k[-60:]: v for k, v in g.items()}, "the first byte" if at == "0" else "the last byte")
+        ctx.ob(rule, "utf8-%s-is-code-point-boundary" % fn, bad is None and len(fe) >= 3, bad or "empty, or futf classifies the code point at the boundary as whole", "tendril fmt UTF8::" + fn)
+
+
 def _py_expr(e, names):
     """translate a pure integer expression of the syntax tree to a Python expression over `names`; None when it is not one"""
     k = e.get("k")
@@ -292,6 +309,18 @@ def r11_7(ctx):
 
 
 def run(ctx):
+    ctx.rule("R11.8", "UTF8::validate_prefix / validate_suffix test the code point at the boundary with futf::classify; an inline tag overwrites the pointer only over an inline tendril (shared with R12.5)")
+    ctx.guard("R11.8", "boundary", lambda: utf8_boundary_validators(ctx, "R11.8"))
+    def inline_tag():
+        from . import C12 as c12
+        before = len(ctx.obs)
+        c12.r12_5(ctx)
+        for o in ctx.obs[before:]:
+            if o["rule"] == "R12.5":
+                o["rule"] = "R11.8"
+        for k in [k for k in ctx.floors if k.startswith("R12.5.")]:
+            ctx.floors["R11.8." + k[len("R12.5."):]] = ctx.floors.pop(k)
+    ctx.guard("R11.8", "inline-tag", inline_tag)
     ctx.rule("R11.7", "WTF8::fixup joins a surrogate pair to 0x10000 + (hi << 10) + lo (complete table over the 2^20 payload pairs)")
     ctx.guard("R11.7", "join", lambda: r11_7(ctx))
     ctx.rule("R11.6", "futf: byte classes over all 256 values and the decode thresholds are UTF-8's")
